@@ -344,7 +344,7 @@ impl Prop for C14 {
     fn meta() -> Meta {
         Meta {
             level: "exploration",
-            rule: "Sessions build a program from (a) grammar-generated lines (C03 generator with INPUT/STOP) and (b) a listing-stress pool: random token sequences over all keyword / punctuation / identifier spellings with random or no blanks, numerals spelled .5 007 1. 00.500 20-400 digits, keywords embedded in identifiers, string literals with multi-byte text, REM with arbitrary text, DATA with quoted / unquoted / numeric / empty items, items containing quotes, blanks around items, DATA ... : stmt; one session in four then RUNs the program (cut after 50 turns) and deletes / replaces / adds 1-3 lines. Then the restart fault fires (1-2 generations): LIST, fresh interpreter, every listed line typed back in. Oracle: every listed line is accepted; LIST of the restarted interpreter equals the listing it was built from (fixed point); from then on RUN with the same seed and reply script produces identical records, requests and outcome on the original and the restarted interpreter, and an immediate READ loop sees the identical sequence of DATA items. distinct_nontrivial = distinct listings with >= 2 stored lines.",
+            rule: "Sessions build a program from (a) grammar-generated lines (C03 generator with INPUT/STOP) and (b) a listing-stress pool: random token sequences over all keyword / punctuation / identifier spellings with random or no blanks, numerals spelled .5 007 1. 00.500 20-400 digits, keywords embedded in identifiers, string literals with multi-byte text, REM with arbitrary text, DATA with quoted / unquoted / numeric / empty items, items containing quotes, blanks (also NBSP / U+3000 / VT) around items, text that a tidying or escaping renderer would change inside string literals and quoted items, DATA ... : stmt; one session in four then RUNs the program (cut after 50 turns) and deletes / replaces / adds 1-3 lines. Then the restart fault fires (1-2 generations): LIST, fresh interpreter, every listed line typed back in. Oracle: every listed line is accepted; LIST of the restarted interpreter equals the listing it was built from (fixed point); from then on RUN with the same seed and reply script produces identical records, requests and outcome on the original and the restarted interpreter, and an immediate READ loop sees the identical sequence of DATA items. distinct_nontrivial = distinct listings with >= 2 stored lines.",
             real: &["abasic-core tokenizer, Token Display (LIST renderer), DATA parser and renderer, Interpreter"],
             stub: &["the host (types the listing back in)"],
             assumptions: &["coverage of 'every token kind in every adjacency, numerals in every spelling' is by per-run sampling of the stress pool, not by enumeration"],
